@@ -1,3 +1,4 @@
+#![feature(allocator_api)]
 #![allow(unused_imports, dead_code, unused_variables, unused_mut, unreachable_code, unused_parens)]
 // Unit `lh` (C18, C04, C13, C16): LoggerHandle — the fan-out methods reset_flw, reopen_output, trigger_rotation, flush,
 // shutdown, existing_log_files, adapt_duplication_to_* (src/logger_handle.rs). Result-flow clauses: the primary
@@ -20,6 +21,14 @@ pub mod log_specification {
     //@ opaque src/log_specification.rs struct LogSpecification
     //@   dropattr #[derive
 }
+/// `Arc::into_inner`: Some exactly for the last owner; `mem::take` hands out the current value
+pub assume_specification<T, A: core::alloc::Allocator>[ std::sync::Arc::<T, A>::into_inner ](a: std::sync::Arc<T, A>) -> (r: Option<T>)
+    ensures (r is Some) == arc_last_owner(a);
+pub uninterp spec fn arc_last_owner<T, A: core::alloc::Allocator>(a: std::sync::Arc<T, A>) -> bool;
+pub broadcast axiom fn ax_arc_last_owner_unit(a: std::sync::Arc<()>)
+    ensures #[trigger] arc_last_owner::<(), std::alloc::Global>(a) == shims::last_owner(a);
+pub assume_specification<T: Default>[ core::mem::take ](dest: &mut T) -> (r: T)
+    ensures r == *old(dest);
 pub mod shims {
     use super::*;
     use super::flexi_error::FlexiLoggerError;
@@ -68,11 +77,19 @@ pub mod shims {
     pub uninterp spec fn pw_shut() -> bool;
     pub uninterp spec fn ow_flushed(wid: int) -> bool;
     pub uninterp spec fn ow_shut(wid: int) -> bool;
+    /// permission: the writers may be shut down (explicit shutdown: always; drop: only by the last clone, F9)
+    pub uninterp spec fn shutdown_ok() -> bool;
+    /// oracle: is this the last owner of the token all clones of a handle share (`Arc::into_inner` answers Some)
+    pub uninterp spec fn last_owner(a: std::sync::Arc<()>) -> bool;
     impl PrimaryWriter {
         #[verifier::external_body]
         pub fn flush(&self) -> std::io::Result<()> ensures pw_flushed() { unimplemented!() }
         #[verifier::external_body]
-        pub fn shutdown(&self) ensures pw_shut() { unimplemented!() }
+        pub fn shutdown(&self)
+            requires
+                shutdown_ok(), //@label PrimaryWriter::shutdown.perm C04
+            ensures pw_shut(),
+        { unimplemented!() }
         #[verifier::external_body]
         pub fn existing_log_files(&self, selector: &LogfileSelector) -> (r: Result<Vec<PathBuf>, FlexiLoggerError>) ensures r == pw_elf_result(selector) { unimplemented!() }
     }
@@ -80,7 +97,10 @@ pub mod shims {
     pub trait LogWriter: Send + Sync {
         spec fn wid(&self) -> int;
         fn flush(&self) -> std::io::Result<()> ensures ow_flushed(self.wid());
-        fn shutdown(&self) ensures ow_shut(self.wid());
+        fn shutdown(&self)
+            requires
+                shutdown_ok(), //@label LogWriter::shutdown.perm C04
+            ensures ow_shut(self.wid());
         fn reopen_output(&self) -> (r: Result<(), FlexiLoggerError>) ensures r == ow_reopen_result(self.wid());
         fn rotate(&self) -> (r: Result<(), FlexiLoggerError>) ensures r == ow_rotate_result(self.wid());
     }
@@ -90,24 +110,20 @@ pub mod logger_handle {
     use super::{flexi_error::FlexiLoggerError, log_specification::*, shims::*};
     use super::strmap_axioms::*;
     use std::{collections::HashMap, path::PathBuf, sync::{Arc, RwLock}};
-    broadcast use vstd::std_specs::hash::group_hash_axioms, group_strmap;
+    broadcast use vstd::std_specs::hash::group_hash_axioms, group_strmap, ax_arc_last_owner_unit;
 
     //@ item src/logger_handle.rs struct LoggerHandle
     //@   dropattr #[derive
     //@ item src/logger_handle.rs struct WritersHandle
     //@   dropattr #[derive
 
-    impl WritersHandle {
-        pub closed spec fn wmap(&self) -> Map<String, Box<dyn LogWriter>> { (*self.other_writers)@ }
-    // R9: `impl Drop for WritersHandle { fn drop }` emitted as an inherent method
-    //@ fn src/logger_handle.rs impl Drop for WritersHandle / fn drop
-    //@   props C04
-    //@   loop 1 iter it
-    //@   loop 1 inv[WritersHandle::drop.loop.all] forall|w: Box<dyn LogWriter>| old(self).wmap().values().contains(w) ==> #[trigger] it.seq().contains(&w)
-    //@   loop 1 inv[WritersHandle::drop.loop.done] pw_shut() && forall|j: int| 0 <= j < it.index@ ==> ow_shut((#[trigger] it.seq()[j]).wid())
-    //@   ens[WritersHandle::drop.post.all] pw_shut() && forall|w: Box<dyn LogWriter>| #[trigger] old(self).wmap().values().contains(w) ==> ow_shut(w.wid())
-    }
     impl LoggerHandle {
+        pub closed spec fn token(&self) -> Arc<()> { self.alive }
+    // R9: `impl Drop for LoggerHandle { fn drop }` emitted as an inherent method
+    //@ fn src/logger_handle.rs impl Drop for LoggerHandle / fn drop
+    //@   props C04
+    //@   req[LoggerHandle::drop.pre.perm] shutdown_ok() <==> last_owner(old(self).token())
+    //@   ens[LoggerHandle::drop.post.last_clone_shuts_down] last_owner(old(self).token()) ==> pw_shut() && forall|w: Box<dyn LogWriter>| #[trigger] old(self).writers().values().contains(w) ==> ow_shut(w.wid())
         pub closed spec fn is_multi(&self) -> bool { *self.writers_handle.primary_writer is Multi }
         pub closed spec fn writers(&self) -> Map<String, Box<dyn LogWriter>> { (*self.writers_handle.other_writers)@ }
     //@ fn src/logger_handle.rs impl LoggerHandle / fn reset_flw
@@ -149,6 +165,8 @@ pub mod logger_handle {
     //@   ens[LoggerHandle::flush.post.all] pw_flushed() && forall|w: Box<dyn LogWriter>| #[trigger] self.writers().values().contains(w) ==> ow_flushed(w.wid())
     //@ fn src/logger_handle.rs impl LoggerHandle / fn shutdown
     //@   props C04
+    //@   attr #[verifier::loop_isolation(false)]
+    //@   req[LoggerHandle::shutdown.pre.perm] shutdown_ok()
     //@   loop 1 iter it
     //@   loop 1 inv[LoggerHandle::shutdown.loop.all] forall|w: Box<dyn LogWriter>| self.writers().values().contains(w) ==> #[trigger] it.seq().contains(&w)
     //@   loop 1 inv[LoggerHandle::shutdown.loop.done] pw_shut() && forall|j: int| 0 <= j < it.index@ ==> ow_shut((#[trigger] it.seq()[j]).wid())
